@@ -14,9 +14,9 @@ func init() { register("C09", runC09) }
 // atoms of the input streamer
 type inputAtoms struct {
 	fn *ssa.Function
-	E  []ssa.Instruction // encodeBlock with the caller's input columns
-	B  []ssa.Instruction // blank terminator block
-	F  []ssa.Instruction // flush
+	E  []ssa.Instruction     // encodeBlock with the caller's input columns
+	B  []ssa.Instruction     // blank terminator block
+	F  []ssa.Instruction     // flush
 	C  []ssa.CallInstruction // OnInput callback
 }
 
@@ -137,7 +137,7 @@ func ruleInputStream(c *Ctx, p *core.Program, roles *doRoles, prefix string) {
 	}
 
 	// --- C09.flush: E ... C needs F in between
-	rule := prefix+".flush"
+	rule := prefix + ".flush"
 	c.R.Rule(rule, "on every path of the input streamer, a block encoded from the caller's columns is flushed before the input callback can run (zero-copy columns are referenced by the writer until Flush): no callback call is reachable from an encodeBlock(Input) without crossing flush, and the error of that flush is honoured")
 	for _, e := range a.E {
 		w := core.ReachAvoiding(core.PointOf(e), isC, isF, nil)
@@ -160,7 +160,7 @@ func ruleInputStream(c *Ctx, p *core.Program, roles *doRoles, prefix string) {
 	runErrDisc(c, p, []*ssa.Function{streamer}, errDiscOpts{Rule: rule, Class: cls, Again: anyAtom})
 
 	// --- C09.terminator
-	rule = prefix+".terminator"
+	rule = prefix + ".terminator"
 	c.R.Rule(rule, "every success exit of the input streamer that sent anything is preceded by exactly one blank terminator block: no success exit avoids it (other than the no-input-columns exit), nothing is encoded after it, and it is not in a loop")
 	noInput := core.CondEdges(streamer, true, func(cond ssa.Value) (bool, bool) {
 		bo, ok := cond.(*ssa.BinOp)
@@ -207,7 +207,7 @@ func ruleInputStream(c *Ctx, p *core.Program, roles *doRoles, prefix string) {
 	}
 
 	// --- C09.callback
-	rule = prefix+".callback"
+	rule = prefix + ".callback"
 	c.R.Rule(rule, "E6 for the input callback: from each call of OnInput, no block, terminator, flush or success exit is reachable without crossing the nil edge of a test of its error or the true edge of errors.Is(err, io.EOF)")
 	for _, call := range a.C {
 		ev := core.ErrValue(call)
@@ -242,7 +242,7 @@ func ruleInputStream(c *Ctx, p *core.Program, roles *doRoles, prefix string) {
 	}
 
 	// --- C09.tail
-	rule = prefix+".tail"
+	rule = prefix + ".tail"
 	c.R.Rule(rule, "end-of-input with rows left sends them: from every io.EOF edge of a callback, the terminator is reachable only through an encodeBlock(Input) or through the false edge of a test `Rows() > 0` of the first input column")
 	rowsFalse := core.CondEdges(streamer, false, func(cond ssa.Value) (bool, bool) {
 		bo, ok := cond.(*ssa.BinOp)
@@ -294,7 +294,7 @@ func ruleInputStream(c *Ctx, p *core.Program, roles *doRoles, prefix string) {
 	}
 
 	// --- C09.more
-	rule = prefix+".more"
+	rule = prefix + ".more"
 	c.R.Rule(rule, "the stream ends only on end-of-input: from the nil-error edge of every callback call the terminator is reachable only through another callback call or through an io.EOF edge - a callback that returned nil (more input may follow, even if it produced no rows this time) never leads straight to the terminator")
 	for _, call := range a.C {
 		ev := core.ErrValue(call)
@@ -340,7 +340,7 @@ func ruleInputStream(c *Ctx, p *core.Program, roles *doRoles, prefix string) {
 	}
 
 	// --- C09.final
-	rule = prefix+".final"
+	rule = prefix + ".final"
 	c.R.Rule(rule, "in the sender goroutine the input streamer's success is followed by flush on every path to a success exit, and both errors are honoured")
 	var si []ssa.Instruction
 	senderFn := bodyOf(roles.Sender)
